@@ -49,8 +49,18 @@ def replay_with_resume(ck, exe, edges_file, prefix, nb, keyfn, max_crashes=40, t
         san = re.findall(r"ERROR: AddressSanitizer: (\S+)|runtime error: ([^\n]*)", r.stderr or "")
         d["sanitizer"] = [a or b for a, b in san][:2]
         d["what"] = "sanitizer abort inside a library call while replaying a specification behaviour"
-        ck.violation(keyfn(d, "crash"), d)
+        if re.search(r"^HANG$", r.stdout or "", re.M):
+            d["what"] = "a library call (or the walk of the structure it left) did not finish within 30 s while replaying a specification behaviour"
+            d["hang"] = 1
+        ck.violation(keyfn(d, "hang" if d.get("hang") else "crash"), d)
         crashes += 1
+        hangs = getattr(replay_with_resume, "_hangs", {})
+        if d.get("hang"):
+            hangs[prefix] = hangs.get(prefix, 0) + 1
+            replay_with_resume._hangs = hangs
+            if hangs[prefix] >= 3:
+                ck.notes.append("stopped after 3 hanging calls (30 s each); remaining edges of this configuration not replayed")
+                return None, crashes
         skip = d["edge"]
         vlib.drop_partial_lines(glob.glob(prefix + "-*.ndjson"))
         if crashes >= max_crashes:
@@ -104,7 +114,7 @@ def run(pid, tier, replay=None):
     rr = vlib.run_harness([rexe, "random", str(ck.seed), str(nh), str(no), sc.path("rnd"), "14"], timeout=1800)
     mrr = re.search(r"^SUMMARY (\{.*\})$", rr.stdout or "", re.M)
     if rr.returncode != 0 or not mrr:
-        if rr.returncode in (97, 98, 99, -6, -11) or "Sanitizer" in (rr.stderr or ""):
+        if rr.returncode in (96, 97, 98, 99, -6, -11) or "Sanitizer" in (rr.stderr or ""):
             ck.violation("crash:seq:random-history", {"what": "sanitizer abort during a long random history", "stderr": (rr.stderr or "")[-1500:], "stdout": (rr.stdout or "")[-600:]})
         else:
             raise Broken("random-history run failed rc=%s: %s" % (rr.returncode, (rr.stderr or "")[-800:]))
